@@ -95,6 +95,20 @@ PLAN = {
         quick=[rapid("prop", "TestProp", 4000)],
         thorough=[rapid("prop", "TestProp", 20000, shards=16), fuzz("fuzz", "FuzzC06", 45)],
     ),
+    "C07": dict(
+        pkg="c07",
+        rule=("rapid-generated build histories whose header texts come from a JSON-hostile alphabet (quotes, backslashes, every control character class incl. BEL/VT/ESC/DEL, U+2028/2029, <>&, non-BMP and unassigned code points; "
+              "duplicates, empties and too-few headers arise naturally) and whose items cover every JSON kind (nil, strings, ints, floats incl. NaN/Inf, bool, slices, maps, empty map, structs with and without exported fields, "
+              "Stringers over field-less structs, TextMarshaler, json.Marshaler, runes, nested cells, unencodable channels); ragged, zero-cell and zero-value rows, Row.Add after attach, separators in every position "
+              "(leading, trailing, repeated, only); skipable in {unset,true,false,non-bool} for column 0 and each column. Oracle: model decides error-vs-output; on error Render must return \"\"; otherwise json.Valid, "
+              "a token-stream walk (array of objects, no duplicate keys, keys in column order) compared with the expected key set and the compacted expected value (json.Marshal(item), or of the text when that is {} and the text is non-empty). "
+              "Non-trivial: a separator is first/last/repeated/alone, a skipable column has an empty cell, a header needs escaping, or the empty-object fallback applies. Distinct: FNV-64 of the case."),
+        level_text="Generated-input search with a round-trip oracle (decode with encoding/json's token stream and compare with the model). Exploration level.",
+        level_note="Trusts encoding/json as the definition of 'valid JSON' and of 'the JSON encoding of the item', and the model's text form for emptiness. Header texts are valid UTF-8 (JSON cannot carry other bytes).",
+        technique="property-based testing (rapid), model-based round-trip through encoding/json's decoder",
+        quick=[rapid("prop", "TestProp", 10000)],
+        thorough=[rapid("prop", "TestProp", 60000, shards=16)],
+    ),
     "C18": dict(
         pkg="c18",
         rule=("strings built from a width-hostile token alphabet (newlines leading/trailing/repeated, CJK wide, full-width, combining, zero-width, emoji ZWJ/flag/skin-tone sequences, "
